@@ -184,11 +184,12 @@ def StarThenTypedDict (F : List Formal) (acts : List Actual) : Bool :=
        | some (Actual.star (some _)), some (Actual.star2 (some _)) => true
        | _, _ => false)
 
-/-- F9 (iii): a `**TypedDict` key is the name of the `*args` formal and there is no `**kwargs` formal:
+/-- F9 (iii), only for a mapper with `Cfg.typedDictKeyMayNameStarArgs` (the code as found):
+    a `**TypedDict` key is the name of the `*args` formal and there is no `**kwargs` formal:
     `map_actuals_to_formals` maps the key to the `*args` formal (the keyword branch tests
     `!= ARG_STAR`, the TypedDict branch does not), CPython raises "unexpected keyword argument" -/
 def TypedDictKeyNamesStarArgs (F : List Formal) (acts : List Actual) : Bool :=
-  (star2Index F).isNone &&
+  Cfg.typedDictKeyMayNameStarArgs && (star2Index F).isNone &&
   (typedDictKeys acts).any fun x =>
     match nameIndex F x with
     | some j => kindAt F j == some .star
@@ -196,14 +197,10 @@ def TypedDictKeyNamesStarArgs (F : List Formal) (acts : List Actual) : Bool :=
 
 /-- F8: two `**TypedDict` actuals share a key (mypy's `ArgTypeExpander` crashes when such a key is
     routed to `**kwargs`; outside the domain of the model) -/
-def typedDictKeyLists : List Actual → List (List Name)
-  | [] => []
-  | .star2 (some ks) :: as => ks :: typedDictKeyLists as
-  | _ :: as => typedDictKeyLists as
-
-def TwoTypedDictsShareKey (acts : List Actual) : Bool :=
-  let tds := typedDictKeyLists acts
-  tds.zipIdx.any fun (ks, i) => tds.zipIdx.any fun (ks', j) => i < j && ks.any (ks'.contains ·)
+def TwoTypedDictsShareKey : List Actual → Bool
+  | [] => false
+  | .star2 (some ks) :: as => ks.any (fun x => (typedDictKeys as).contains x) || TwoTypedDictsShareKey as
+  | _ :: as => TwoTypedDictsShareKey as
 
 /-- every `*`/`**` actual has a statically known length / key set -/
 def AllKnown : List Actual → Bool
